@@ -39,14 +39,21 @@ type solverSpec struct {
 	name string
 	args func(file string, secs int) []string
 	pre  string
+	// rewrite of the query text (e.g. a tactic instead of plain check-sat)
+	rewrite func(q string) string
 }
 
 var solvers = []solverSpec{
-	{"z3-new", func(f string, s int) []string { return []string{"z3-new", "-smt2", fmt.Sprintf("-T:%d", s), f} }, ""},
-	{"z3", func(f string, s int) []string { return []string{"z3", "-smt2", fmt.Sprintf("-T:%d", s), f} }, ""},
+	{"z3-new", func(f string, s int) []string { return []string{"z3-new", "-smt2", fmt.Sprintf("-T:%d", s), f} }, "", nil},
+	{"z3", func(f string, s int) []string { return []string{"z3", "-smt2", fmt.Sprintf("-T:%d", s), f} }, "", nil},
 	{"cvc5", func(f string, s int) []string {
 		return []string{"cvc5", "--lang", "smt2", fmt.Sprintf("--tlimit=%d", s*1000), "--produce-models", f}
-	}, "(set-logic ALL)\n"},
+	}, "(set-logic ALL)\n", nil},
+	// z3 with an eager bit-blasting pipeline: decides XOR-heavy hash obligations the default SMT core does not
+	{"z3-new-bb", func(f string, s int) []string { return []string{"z3-new", "-smt2", fmt.Sprintf("-T:%d", s), f} }, "",
+		func(q string) string {
+			return strings.Replace(q, "(check-sat)", "(check-sat-using (then simplify propagate-values solve-eqs elim-uncnstr simplify (par-or smt (then bit-blast sat))))", 1)
+		}},
 }
 
 var memo sync.Map // sha -> *Result (within one run only)
@@ -58,10 +65,17 @@ type answer struct {
 
 func runOne(ctx context.Context, sp solverSpec, file string, secs int, seed int) answer {
 	f := file
-	if sp.pre != "" {
+	if sp.pre != "" || sp.rewrite != nil {
 		data, _ := os.ReadFile(file)
 		f = file + "." + sp.name
-		os.WriteFile(f, append([]byte(sp.pre), data...), 0o644)
+		txt := sp.pre + string(data)
+		if sp.rewrite != nil {
+			txt = sp.rewrite(txt)
+			if strings.Contains(txt, "(forall") {
+				return answer{"unknown", sp.name, "skipped (quantifiers)", 0}
+			}
+		}
+		os.WriteFile(f, []byte(txt), 0o644)
 		defer os.Remove(f)
 	}
 	args := sp.args(f, secs)
@@ -120,7 +134,7 @@ func solve(query string, workDir string, tag string, timeoutSecs int, seed int) 
 		go func() { ch <- runOne(ctx, solvers[i], file, secs, seed) }()
 	}
 	launch(0, timeoutSecs)
-	stagger := time.After(1500 * time.Millisecond)
+	stagger := time.After(4 * time.Second)
 	var answers []answer
 	var final *answer
 	got := 0
@@ -139,6 +153,7 @@ func solve(query string, workDir string, tag string, timeoutSecs int, seed int) 
 				}
 				launch(1, rem)
 				launch(2, rem)
+				launch(3, rem)
 				stagger = nil
 			}
 		case <-stagger:
@@ -149,6 +164,7 @@ func solve(query string, workDir string, tag string, timeoutSecs int, seed int) 
 			}
 			launch(1, rem)
 			launch(2, rem)
+			launch(3, rem)
 		}
 		if got >= launched && final == nil && stagger == nil {
 			break
